@@ -38,6 +38,7 @@ func TestCheck(t *testing.T) {
 	r.Rule("case = PRNG script over 2 contended slots x 2 committees x 3 validators (+2 proposal, 8 aggregate, 8 contribution keys) run by 1 client (sequential, 25%) or 2-8 client goroutines against the real dutydb.MemDB with a harness Deadliner: " +
 		"Stores (single/multi entry; canonical, conflicting in one field class, partially conflicting, clashing pubkeys, after expiry), async Await* (30% cancelled, some on never-stored keys), PubKeyByAttestation, non-blocking reads, expiry ticks; then a wake-up phase " +
 		"(waiters registered first, then Stores only), an expiry epilogue, final reads and Shutdown. " +
+		"Every 8th case runs the second world: MemDB composed with the REAL core.Deadliner on a harness-advanced fake clock: 0..60 stored duties (attester/aggregator/proposer/contribution over up to 60 slots) pass their deadline in 'outages' (clock advances with no Store in between; below, between and above 1x/2x the deadliner's output buffer), then Stores and queries for live and new keys resume; same oracles, expiry instants = clock advances; a call that does not return is judged from a stop-the-world goroutine dump. " +
 		"non-trivial = a blocked Await was woken by a later Store AND a conflicting Store was rejected after a completed successful one; distinct = hash of script + outcome vector")
 	r.Assume("core.Deadliner contract: Add reports DeadlineExpired from no later than the instant the duty is emitted on C(); a duty is emitted once and only if an Add scheduled it (harness Deadliner marks expired first, then emits)")
 	r.Assume("Go select chooses uniformly among ready cases: a key that is present is missed by all 48 cancelled-context Await attempts of a non-blocking read with probability 2^-48")
@@ -53,9 +54,20 @@ func TestCheck(t *testing.T) {
 	r.Require("late_waiters_woken", 500)
 	r.Require("probes_absent", 300)
 	r.Require("linearizability_keys_checked", 2000)
+	r.Require("realdl_cases", 100)
+	r.Require("realdl_outage_backlog_gt_2x_buffer", 20)
+	r.Require("realdl_outage_backlog_le_buffer", 20)
+	r.Require("realdl_resume_awaits_answered", 300)
+	r.Assume("second world: clockwork.FakeClock semantics; the fake clock never moves while a Store is in flight (an Advance between the deadliner's clock read and its relative timer arm would only delay trimming)")
 
 	n := r.N(2000, 40000)
-	r.Cases(n, 0, func(c *kit.Case) { runCase(c) })
+	r.Cases(n, 0, func(c *kit.Case) {
+		if c.Idx%8 == 7 {
+			runRealDeadlinerCase(c) // second world: MemDB composed with the real core.Deadliner
+		} else {
+			runCase(c)
+		}
+	})
 }
 
 // ---------------------------------------------------------------------------------------------
